@@ -377,6 +377,8 @@ def _edit_event(g, nm, inv, e):
             e["ret"] = sorted([inv[u], inv[v]] for u, v in g.edges())
             e["retnodes"] = sorted(inv[v] for v in g.nodes())
             e["z"] = sorted(inv[v] for v in g.latents if v in g.nodes())
+            e["roots"] = sorted(inv[v] for v in g.get_roots())
+            e["leaves"] = sorted(inv[v] for v in g.get_leaves())
         elif op == "add_edge":
             try:
                 g.add_edge(nm[e["x"]], nm[e["y"]])
@@ -415,6 +417,8 @@ def _nb_event(g, nm, inv, e, rng):
             e["ret"] = [] if r is None else sorted(inv[v] for v in r)
         elif op == "markov_blanket":
             e["ret"] = sorted(inv[v] for v in g.get_markov_blanket(nm[e["x"]]))
+        elif op == "local_independencies" and e["z"]:
+            e["ret"] = [_trip(a, inv) for a in g.local_independencies([nm[v] for v in e["z"]]).get_assertions()]
         elif op == "local_independencies":
             x = nm[e["x"]]
             e["ret"] = [_trip(a, inv) for a in g.local_independencies([x] if rng.random() < 0.5 or isinstance(x, tuple) else x).get_assertions()]
@@ -438,7 +442,7 @@ def record(payload):
     if "rerun" in payload:
         t = payload["rerun"]
         specs = [({"nodes": t["nodes"], "edges": t["edges"], "latents": t["latents"], "cls": t.get("cls", "")}, t["tid"], t["seed"], [
-            {k: e[k] for k in e if k not in ("ret", "retnodes", "none", "exc", "ok") and not (e["op"] == "graph" and k == "z")} for e in t["events"]])]
+            {k: e[k] for k in e if k not in ("ret", "retnodes", "none", "exc", "ok", "roots", "leaves") and not (e["op"] == "graph" and k == "z")} for e in t["events"]])]
     else:
         rng0 = random.Random(payload["seed"])
         specs = []
@@ -476,6 +480,8 @@ def record(payload):
             x = rng.choice(nodes)
             evs.append({"op": "markov_blanket", "x": x})
             evs.append({"op": "local_independencies", "x": rng.choice(nodes)})
+            if len(nodes) >= 2:
+                evs.append({"op": "local_independencies", "z": rng.sample(nodes, rng.randint(2, min(4, len(nodes))))})
             evs.append({"op": "moralize"})
             evs.append({"op": "ancestral", "z": rng.sample(nodes, rng.randint(1, min(3, len(nodes))))})
             if len(nodes) <= 5:
@@ -484,7 +490,7 @@ def record(payload):
                 evs += _plan_edits(case, evs, rng, cls)
         events = []
         for e in evs:
-            e = dict({"x": "", "y": "", "z": [], "incl": False, "none": False, "ret": [], "retnodes": [], "ok": True}, **e)
+            e = dict({"x": "", "y": "", "z": [], "incl": False, "none": False, "ret": [], "retnodes": [], "ok": True, "roots": [], "leaves": []}, **e)
             op = e["op"]
             if op in EDIT_OPS or op == "graph":
                 events.append(_edit_event(g, nm, inv, e))
@@ -504,6 +510,9 @@ def record(payload):
                 e["ret"] = [] if r is None else sorted(inv[v] for v in r)
             elif op == "markov_blanket":
                 e["ret"] = sorted(inv[v] for v in g.get_markov_blanket(nm[e["x"]]))
+            elif op == "local_independencies" and e["z"]:
+                lst = [nm[v] for v in e["z"]]
+                e["ret"] = [_trip(a, inv) for a in g.local_independencies(lst if rng.random() < 0.7 else tuple(lst)).get_assertions()]
             elif op == "local_independencies":
                 x_ = nm[e["x"]]
                 e["ret"] = [_trip(a, inv) for a in g.local_independencies([x_] if isinstance(x_, tuple) or rng.random() < 0.3 else x_).get_assertions()]
